@@ -4,7 +4,7 @@
    Model: chainService.Add = plan (all reads) then exec (<= 3 writes, each its own transaction); a kill between
    transactions, or a failing write, leaves `crash_state f s h k = exec s (writes planned for h) k`. *)
 From Coq Require Import ZArith NArith List.
-From BHS Require Import Work Store Chain ChainSpec Crash ChainInv ChainAdd ChainMain ChainFields ChainCrash.
+From BHS Require Import Work Store Chain ChainSpec Crash ChainInv ChainAdd ChainMain ChainFields ChainCrash ChainOracle.
 Import ListNotations.
 Open Scope Z_scope.
 
@@ -12,6 +12,14 @@ Open Scope Z_scope.
    none above, parent-linked *)
 Theorem C05_invariant_meaning : forall s tip, Inv s tip -> exists t, by_hash s tip = Some t /\ struct_valid s t.
 Proof. exact inv_struct_valid. Qed.
+
+(* the executable oracle that bin/check applies to the implementation's tables accepts every store satisfying the
+   invariant - so it cannot raise an alarm on a table the model allows (reachable stores, every crash state) *)
+Theorem C05_oracle_accepts_invariant : forall s tip, Inv s tip -> struct_validb s = true.
+Proof. exact inv_struct_validb. Qed.
+
+Theorem C05_crash_states_pass_oracle : forall f s tip h k, Inv s tip -> s_id h <> 0%N -> struct_validb (crash_state f s h k) = true.
+Proof. exact crash_state_passes_oracle. Qed.
 
 (* every store reachable by ingestion satisfies it (any work values) ... *)
 Theorem C05_reachable_valid : forall f gid gpl hs, gid <> 0%N -> nonzero_ids hs -> exists tip, Inv (run f gid gpl hs) tip.
@@ -61,6 +69,8 @@ Theorem C05_restart_noop : forall f gid gpl hs, gid <> 0%N -> nonzero_ids hs -> 
 Proof. exact restart_noop. Qed.
 
 Print Assumptions C05_invariant_meaning.
+Print Assumptions C05_oracle_accepts_invariant.
+Print Assumptions C05_crash_states_pass_oracle.
 Print Assumptions C05_reachable_valid.
 Print Assumptions C05_valid_everywhere.
 Print Assumptions C05_acked_persist.
